@@ -5,7 +5,7 @@ import dns
 SLICE = "NAME (Name::parse at an offset through the parse_name_at hook)"
 ALPHA = [0, 1, 2, 3, 63, 64, 0x80, 0xBF, 0xC0, 0xC1, 0xFF, ord('a')]
 RULE = ("bounded-exhaustive: every buffer of length <= L (L=4 quick, 5 thorough) over the alphabet "
-        "{0,1,2,3,63,64,0x80,0xBF,0xC0,0xC1,0xFF,'a'} at every start offset; plus seeded structured buffers: label runs at the "
+        "{0,1,2,3,63,64,0x80,0xBF,0xC0,0xC1,0xFF,'a'} at every start offset; plus seeded structured buffers: pointer chains of up to 8189 jumps (every pointer offset that exists), label runs at the "
         "63-byte and 254/255-byte limits, pointer chains, pointers to self / forward / past the end / into the middle of labels, "
         "names ending exactly at the end of the buffer, every value of the length octet with that many / one fewer / more bytes behind it, names of 125..128 labels and 253..256 bytes continued through a pointer after any "
         "number of labels. non-trivial = the name decodes; distinct = distinct outputs")
@@ -69,7 +69,7 @@ def cases(rng, tier):
                 out.append("NAME %s %x" % (h, off))
     out += structured(rng, 3000 if tier == "quick" else 30000)
     # valid deep chains: pure pointer chains and label+pointer nesting (what a compressor emits for nested names)
-    for depth in (1, 2, 9, 10, 11, 12, 20, 64, 126, 127, 128, 253, 254, 255, 256, 257, 300, 512, 1000):
+    for depth in (1, 2, 9, 10, 11, 12, 20, 64, 126, 127, 128, 253, 254, 255, 256, 257, 300, 512, 1000, 1023, 1024, 1025, 2047, 2048, 2049, 4095, 4096, 4097, 8000, 8189):
         buf = bytearray(b"\x00")
         last = 0
         for _ in range(depth):
@@ -77,6 +77,8 @@ def cases(rng, tier):
             buf += bytes([0xC0 | (last >> 8), last & 0xFF])
             last = here
         out.append("NAME %s %x" % (bytes(buf).hex(), last))
+        if 4 * depth + 3 > 16383:
+            continue
         buf = bytearray(b"\x01z\x00")
         last = 0
         for i in range(depth):
